@@ -501,36 +501,77 @@ func init() {
 				return []Obligation{anchorMissing("PARSE.number-conversion", "rdparser.Parser.TokenText")}
 			}
 			var obs []Obligation
-			for _, u := range c.Funcs(func(p string) bool { return rel(p) == "parser/rdparser" }) {
+			inParser := func(p string) bool { return rel(p) == "parser/rdparser" }
+			// argOK: the expression (in unit u) satisfies leaf, is a local defined only by
+			// expressions that do, or is a parameter of a private function every call site of
+			// which passes such an expression
+			var argOK func(u FuncUnit, e ast.Expr, leaf func(info *types.Info, e ast.Expr) bool, depth int) bool
+			argOK = func(u FuncUnit, e ast.Expr, leaf func(info *types.Info, e ast.Expr) bool, depth int) bool {
 				info := u.Pkg.TypesInfo
-				ord := &ordinal{}
-				isTokenText := func(e ast.Expr) bool {
-					e = ast.Unparen(e)
-					if ce, ok := e.(*ast.CallExpr); ok && originOf(Callee(info, ce)) == tokText {
-						return true
-					}
-					if o := identObj(info, e); o != nil {
-						ndef, okAll := 0, true
-						ast.Inspect(u.Decl.Body, func(n ast.Node) bool {
-							as, ok := n.(*ast.AssignStmt)
-							if !ok || len(as.Lhs) != len(as.Rhs) {
-								return true
-							}
-							for i, l := range as.Lhs {
-								if identObj(info, l) == o {
-									ndef++
-									ce, ok := ast.Unparen(as.Rhs[i]).(*ast.CallExpr)
-									if !ok || originOf(Callee(info, ce)) != tokText {
-										okAll = false
-									}
-								}
-							}
-							return true
-						})
-						return ndef > 0 && okAll
-					}
+				e = ast.Unparen(e)
+				if leaf(info, e) {
+					return true
+				}
+				o := identObj(info, e)
+				if o == nil || depth > 3 {
 					return false
 				}
+				// a parameter of this function
+				for i, pv := range paramObjs(u) {
+					if pv != o {
+						continue
+					}
+					if u.Obj.Exported() {
+						return false
+					}
+					sites, refs := c.CallsTo(inParser, u.Obj)
+					if len(refs) > 0 || len(sites) == 0 {
+						return false
+					}
+					// paramObjs lists the receiver first when there is one
+					off := 0
+					if u.Obj.Type().(*types.Signature).Recv() != nil {
+						off = 1
+					}
+					if i < off {
+						return false
+					}
+					for _, st := range sites {
+						if i-off >= len(st.Call.Args) || !argOK(st.Unit, st.Call.Args[i-off], leaf, depth+1) {
+							return false
+						}
+					}
+					return true
+				}
+				ndef, okAll := 0, true
+				ast.Inspect(u.Decl.Body, func(n ast.Node) bool {
+					as, ok := n.(*ast.AssignStmt)
+					if !ok || len(as.Lhs) != len(as.Rhs) {
+						return true
+					}
+					for i, l := range as.Lhs {
+						if identObj(info, l) == o {
+							ndef++
+							if !leaf(info, ast.Unparen(as.Rhs[i])) {
+								okAll = false
+							}
+						}
+					}
+					return true
+				})
+				return ndef > 0 && okAll
+			}
+			isTokText := func(info *types.Info, e ast.Expr) bool {
+				ce, ok := e.(*ast.CallExpr)
+				return ok && originOf(Callee(info, ce)) == tokText
+			}
+			isRadix := func(info *types.Info, e ast.Expr) bool {
+				k, ok := intConst(info, e)
+				return ok && k >= 2 && k <= 36
+			}
+			for _, u := range c.Funcs(inParser) {
+				info := u.Pkg.TypesInfo
+				ord := &ordinal{}
 				ast.Inspect(u.Decl.Body, func(n ast.Node) bool {
 					ce, ok := n.(*ast.CallExpr)
 					if !ok {
@@ -543,10 +584,18 @@ func init() {
 					switch fn.Name() {
 					case "ParseInt", "ParseFloat", "Atoi":
 						construct := ord.next("strconv." + fn.Name())
-						if isTokenText(ce.Args[0]) {
+						if argOK(u, ce.Args[0], isTokText, 0) {
 							obs = append(obs, mkOb(c, "PARSE.number-conversion", u, construct, ce, Proved, "applied to the token's own text", true))
 						} else {
 							obs = append(obs, mkOb(c, "PARSE.number-conversion", u, construct, ce, Violated, "the literal is converted from `"+types.ExprString(ce.Args[0])+"`, not from the token's complete text: a conversion of the magnitude followed by a negation cannot read -9223372036854775808", true))
+						}
+						if fn.Name() == "ParseInt" && len(ce.Args) == 3 {
+							construct := ord.next("radix of strconv.ParseInt")
+							if argOK(u, ce.Args[1], isRadix, 0) {
+								obs = append(obs, mkOb(c, "PARSE.number-conversion", u, construct, ce, Proved, "the radix is a constant between 2 and 36 at every use", true))
+							} else {
+								obs = append(obs, mkOb(c, "PARSE.number-conversion", u, construct, ce, Violated, "the radix `"+types.ExprString(ce.Args[1])+"` is not a fixed base: base 0 makes strconv infer the radix from the text, so the decimal literal 010 reads as 8 and 08 is refused", true))
+							}
 						}
 					case "ParseUint":
 						obs = append(obs, mkOb(c, "PARSE.number-conversion", u, ord.next("strconv.ParseUint"), ce, Violated, "an unsigned parse in the reader: the sign is applied afterwards, so the most negative integer cannot be read", true))
